@@ -221,15 +221,15 @@ void threaded_mode(bool pool_mode) {
         for (int i = 0; i < n; i++) th.emplace_back([&, i] {
             clk::time_point tp = base + ms(delay[i]);
             dsim::cell_set(TP + i, virt(tp)); dsim::cell_set(T_CALL + i, dsim::now_ns());
-            if (kind[i] == 0) { auto f = mt_coro_sleeper(*sch, i, tp, 1 + i).start(); dsim::cell_set(ISSUED + i, 1); f.wait(); }
+            if (kind[i] == 0) { auto f = mt_coro_sleeper(*sch, i, tp, 1 + i).start(); vs::cell_set_hb(ISSUED + i, 1); f.wait(); }
             else {
-                auto f = sch->sleep_until(tp, ident(1 + i)); dsim::cell_set(ISSUED + i, 1);
+                auto f = sch->sleep_until(tp, ident(1 + i)); vs::cell_set_hb(ISSUED + i, 1);
                 try { f.wait(); sleeper_woke(i, 1); } catch (const cocls::await_canceled_exception &) { sleeper_woke(i, 3); } catch (const vs::TestError &) { sleeper_woke(i, 2); }
             }
         });
         std::thread canc([&] { for (int c = 0; c < ncanc; c++) { bool r = sch->cancel(ident(1 + ctarget[c]), vs::make_err(1)); if (r) dsim::cell_add(CANCEL_TRUE, 1); std::this_thread::yield(); } });
         canc.join();
-        for (int i = 0; i < n; i++) dsim::wait_cell(ISSUED + i);
+        for (int i = 0; i < n; i++) vs::wait_cell_hb(ISSUED + i);      // the threads are done with 'sch' itself (they only wait on their futures now)
         if (!destroy_early) for (auto &t : th) t.join();
         dsim::cell_set(SEQ, 77);
         sch.reset();                                   // must return; pending sleeps end with await_canceled_exception
